@@ -240,7 +240,8 @@ def refAlt (st : St) : Alt := ("refused -", st.sp)
 /-- the S column of an operation of the C04 alphabet: the alternatives of `Spec/ArrayOps.lean` (the list the theorems
     of Props/C04.lean are about, `specRel_iff_alts`), or a refusal that changes nothing -/
 def opAlts (st : St) (h : Nat) (op : Op) : List Alt :=
-  (specAlts st.m op (st.sp.getD h [])).map (fun v' => okAlt st h v') ++ [refAlt st]
+  (specAlts st.m op (st.sp.getD h [])).map (fun v' => okAlt st h v') ++
+    (if mustSucceed st.m op (st.sp.getD h []) then [] else [refAlt st])
 
 def offRet (v : Nat) (_ : State) : String := s!"+{v}"
 def noDetail {α} (_ : α) (_ : State) : String := "-"
@@ -416,6 +417,17 @@ def step (elem : Bool) (st : St) (w : List String) : St × String :=
         | some pos, some (bytes, isnull) =>
           finish elem st (bsetOp m h pos bytes (!isnull)) noDetail (fun r _ => toString r) (opAlts st h (.bset h pos bytes (!isnull)))
         | _, _ => bad
+      | "bsetas", [tr, pos, dat] =>
+        -- mpt_buffer_set with an element type named by the caller (the buffer's own, a compatible or a foreign one)
+        if elem then bad
+        else
+          match traitsByName elem tr, opnd m h pos, dataArg m h dat with
+          | some src, some pos, some (bytes, isnull) =>
+            -- only the buffer's own element type is accepted (plain types are never compatible with one another)
+            let own := (bufOf m h).map (·.traits) = some src
+            finish elem st (bsetAsOp m h src pos bytes (!isnull)) noDetail (fun r _ => toString r)
+              ((if own then [okAlt st h (Vec.write v pos bytes)] else []) ++ [refAlt st])
+          | _, _, _ => bad
       | "printf", [dat] =>
         match dataArg m h dat with
         | some (bytes, isnull) =>
@@ -446,7 +458,7 @@ def step (elem : Bool) (st : St) (w : List String) : St × String :=
             let tailOf := fun (m' : State) => match m'.win h, bufOf m' h with
               | some w, some x => x.used - (w.off + w.len)
               | _, _ => 0
-            let alts := ((List.range (nblk + 1)).flatMap fun k =>
+            let alts := (((List.range (nblk + 1)).filter fun k => nblk = 0 ∨ k ≠ 0).flatMap fun k =>
               ([0, tail - k * esz].eraseDups.map fun t' =>
                 okAlt st h (Vec.append v (Vec.blocks bytes k esz)) s!"n{k}t{t'}")) ++ [refAlt st]
             let (st', line) := finish elem st (sliceWrite m h nblk esz bytes) (fun r m' => s!"n{r}t{tailOf m'}") (fun r _ => toString r) alts
@@ -572,11 +584,13 @@ def stepX (elem : Bool) (st : St) (w : List String) : St × String :=
             match nat? off, xData dat with
             | some off, some (bytes, _) =>
               if off > 100000 then bad
-              else finishX elem st (arrayInsertX m h off bytes) offRet "null" [okAlt st h (Vec.insert v off bytes), refAlt st]
+              else finishX elem st (arrayInsertX m h off bytes) offRet "null"
+                (okAlt st h (Vec.insert v off bytes) :: (if mustSucceed m (.insert h off bytes) v then [] else [refAlt st]))
             | _, _ => bad
           | "append", [dat] =>
             match xData dat with
-            | some (bytes, _) => finishX elem st (arrayAppendX m h bytes) offRet "null" [okAlt st h (Vec.append v bytes), refAlt st]
+            | some (bytes, _) => finishX elem st (arrayAppendX m h bytes) offRet "null"
+                (okAlt st h (Vec.append v bytes) :: (if mustSucceed m (.append h bytes) v then [] else [refAlt st]))
             | none => bad
           | "setv", [kind, dat] =>
             -- array::set(const value &): s = string, i = int32, d = double
@@ -584,14 +598,40 @@ def stepX (elem : Bool) (st : St) (w : List String) : St × String :=
             | some (bytes, false) =>
               let spec : Option (Traits × Bool × Nat) :=
                 if kind = "s" then (if bytes.contains 0 then none else some (traitsC, true, 115))
+                else if kind = "a" then some (traitsC, decide (bytes ≠ [] ∧ bytes.getLast? ≠ some 0), 2050)
                 else if kind = "i" ∧ bytes.length = 4 then some ({ id := 14, size := 4, init := false, fini := none }, false, 105)
                 else if kind = "d" ∧ bytes.length = 8 then some ({ id := 15, size := 8, init := false, fini := none }, false, 100)
                 else none
               match spec with
               | some (t, nul, code) =>
                 let data := if nul then bytes ++ [0] else bytes
-                finishX elem st (arraySetValue m h t bytes nul) (fun _ _ => toString code) "BadOperation" [okAlt st h data, refAlt st]
+                -- the value becomes the content of a new buffer: nothing the handle held before can make this fail
+                finishX elem st (arraySetValue m h t bytes nul) (fun _ _ => toString code) "BadOperation" [okAlt st h data]
               | none => bad
+            | _ => bad
+          | "printf", [dat] =>
+            -- array::printf("%s", text): the C function behind a variadic wrapper
+            match xData dat with
+            | some (bytes, false) =>
+              if bytes.contains 0 then bad
+              else
+                match arrayPrintf m h traitsC bytes with
+                | .fail m1 e => emit elem { st with m := m1 } "refused" "-" (failName e) [okAlt st h (Vec.append v bytes), refAlt st]
+                | r => finish elem st r noDetail (fun r _ => toString r) [okAlt st h (Vec.append v bytes), refAlt st]
+            | _ => bad
+          | "setc", [mode, dat] =>
+            -- array::set(convertable &): generic / character vector data, a string (terminated), no string, nothing
+            match xData dat with
+            | some (bytes, false) =>
+              if mode = "v" ∨ mode = "c" then
+                finishX elem st (arraySetX m h bytes) (fun _ _ => "0") "BadOperation" [okAlt st h bytes, refAlt st]
+              else if mode = "s" then
+                if bytes.contains 0 then bad
+                else finishX elem st (arraySetX m h (bytes ++ [0])) (fun _ _ => toString bytes.length) "BadOperation"
+                  [okAlt st h (bytes ++ [0]), refAlt st]
+              else if mode = "z" then emit elem st "refused" "-" "MissingData" [refAlt st]
+              else if mode = "e" then emit elem st "refused" "-" "BadType" [refAlt st]
+              else bad
             | _ => bad
           | "ebuf", [n] =>
             -- io::buffer b(array); b.shift(n); b.shift(0): another handle on the data consumes and compacts its view;
@@ -601,14 +641,20 @@ def stepX (elem : Bool) (st : St) (w : List String) : St × String :=
               if n > 100000 then bad
               else
                 -- a typed array shows no raw data to `array::length()`: nothing to compact
-                let r := if 0 < n ∧ n ≤ v.length then (if handleTyped m h then 1 else 3) else 0
-                emit elem st "ok" "-" (toString r) [("ok -", st.sp)]
+                let acc := 0 < n ∧ n ≤ v.length
+                let r := if acc then (if handleTyped m h then 1 else 3) else 0
+                -- detail: what the io::buffer still offers to its reader (the unconsumed rest)
+                let rest := toHex (if acc then v.drop n else v)
+                emit elem st "ok" rest (toString r) [(s!"ok {rest}", st.sp)]
             | none => bad
           | "setslice", [src, off, len] =>
             match handleArg st.nh src, nat? off, nat? len with
             | some h2, some off, some len =>
               let sv := st.sp.getD h2 []
-              let alts := if off + len ≤ sv.length then [okAlt st h (Vec.sub sv off len), refAlt st] else [refAlt st]
+              -- a range inside the raw data of the source is never refused (a typed source shows no raw data)
+              let alts := if off + len ≤ sv.length then
+                  (okAlt st h (Vec.sub sv off len) :: (if handleTyped m h2 then [refAlt st] else []))
+                else [refAlt st]
               finishX elem st (arraySetSlice m h h2 off len) (fun _ _ => "true") "false" alts
             | _, _, _ => bad
           | _, _ => bad
@@ -712,7 +758,9 @@ def stepX (elem : Bool) (st : St) (w : List String) : St × String :=
               | some c =>
                 if c > 100000 then bad
                 else
-                  let alts := if c * sz ≤ v.length then [okAlt st h (v.take (v.length - c * sz)), refAlt st] else [refAlt st]
+                  -- whole elements inside the data of a buffer nobody shares are never refused
+                  let priv := ((bufOf m h).map fun x => decide (x.ref = 1) && !x.immutable) = some true
+                  let alts := if c * sz ≤ v.length then (okAlt st h (v.take (v.length - c * sz)) :: (if priv then [] else [refAlt st])) else [refAlt st]
                   finishX elem st (xTrim m h k c) boolRet "false" alts
               | none => bad
             | "skip", [cnt] =>
@@ -720,7 +768,8 @@ def stepX (elem : Bool) (st : St) (w : List String) : St × String :=
               | some c =>
                 if c > 100000 then bad
                 else
-                  let alts := if c * sz ≤ v.length then [okAlt st h (v.drop (c * sz)), refAlt st] else [refAlt st]
+                  let priv := ((bufOf m h).map fun x => decide (x.ref = 1) && !x.immutable) = some true
+                  let alts := if c * sz ≤ v.length then (okAlt st h (v.drop (c * sz)) :: (if priv then [] else [refAlt st])) else [refAlt st]
                   finishX elem st (xSkip m h k c) boolRet "false" alts
               | none => bad
             | _, _ => bad
